@@ -3,6 +3,7 @@
 package c19
 
 import (
+	"bytes"
 	"container/list"
 	"errors"
 	"fmt"
@@ -11,6 +12,7 @@ import (
 	"os"
 	"path"
 	"path/filepath"
+	"runtime"
 	"strconv"
 	"strings"
 	"sync"
@@ -423,6 +425,34 @@ func TestC19(t *testing.T) {
 				rec("origin target %d -> mocked %d origin %d", oi, tf(k), origin(5))
 			})
 		}
+		// origins that are leaves of a few instructions with a pc-relative operand in the relocated head
+		try("origin of a short leaf returning a string constant", func() {
+			ob := mocker.Create()
+			defer ob.Reset()
+			var origin = func() (string, int) {
+				fmt.Fprintln(io.Discard, "only for placeholder, will not call")
+				fmt.Fprintln(io.Discard, "only for placeholder, will not call")
+				fmt.Fprintln(io.Discard, "only for placeholder, will not call")
+				return "", 0
+			}
+			ob.Func(label19).Origin(&origin).Apply(func() (string, int) { s, n := origin(); return s + "!", n + 1 })
+			s1, n1 := label19()
+			s2, n2 := origin()
+			rec("origin of short leaf (string constant) -> mocked %q %d origin %q %d", s1, n1, s2, n2)
+		})
+		try("origin of a short leaf reading a global", func() {
+			ob := mocker.Create()
+			defer ob.Reset()
+			var origin = func() int {
+				fmt.Fprintln(io.Discard, "only for placeholder, will not call")
+				fmt.Fprintln(io.Discard, "only for placeholder, will not call")
+				fmt.Fprintln(io.Discard, "only for placeholder, will not call")
+				return 0
+			}
+			leafGlobal19 = 41
+			ob.Func(leafG19).Origin(&origin).Apply(func() int { return origin() + 1000 })
+			rec("origin of short leaf (global) -> mocked %d origin %d", leafG19(), origin())
+		})
 		// origin placeholders so small that the relocated head only fits because the padding behind them counts
 		for oi, tf := range originTargets {
 			oi, tf := oi, tf
@@ -434,6 +464,70 @@ func TestC19(t *testing.T) {
 				rec("origin target %d, tiny placeholder -> mocked %d origin %d", oi, tf(k), (*ph)(5))
 			})
 		}
+		// functions so small that the next one starts 32 bytes further, mocked and cancelled in turn: what a cancel writes
+		// back is the same bytes whatever is logged
+		for vi, variant := range []string{"later neighbour mocked first, cancelled first", "earlier neighbour mocked first, cancelled alone"} {
+			fa, fb := tinyNeighbours[2*vi], tinyNeighbours[2*vi+1]
+			pa, pb := vmon.FuncCodePtr(fa), vmon.FuncCodePtr(fb)
+			snapA, snapB := vmon.ReadMem(pa, 32), vmon.ReadMem(pb, 32)
+			try("tiny neighbours: "+variant, func() {
+				ba, bb := mocker.Create(), mocker.Create()
+				if vi == 0 {
+					bb.Func(fb).Apply(func(i int) int { return i + 7000 })
+					ba.Func(fa).Apply(func(i int) int { return i + 6000 })
+					rec("tiny neighbours (%s): mocked %d %d", variant, fa(k), fb(k))
+					bb.Reset()
+					ba.Reset()
+				} else {
+					ba.Func(fa).Apply(func(i int) int { return i + 6000 })
+					bb.Func(fb).Apply(func(i int) int { return i + 7000 })
+					liveB := vmon.ReadMem(pb, 32)
+					ba.Reset()
+					if nowB := vmon.ReadMem(pb, 32); !bytes.Equal(nowB, liveB) {
+						rec("tiny neighbours (%s): cancelling the earlier one changed the entry of the still mocked later one: % x -> % x", variant, liveB[:16], nowB[:16])
+					} else {
+						rec("tiny neighbours (%s): earlier cancelled, calls %d %d", variant, fa(k), fb(k))
+					}
+					bb.Reset()
+				}
+				if nowA, nowB := vmon.ReadMem(pa, 32), vmon.ReadMem(pb, 32); !bytes.Equal(nowA, snapA) || !bytes.Equal(nowB, snapB) {
+					rec("tiny neighbours (%s): after both were cancelled the code differs from before: first % x -> % x, second % x -> % x", variant, snapA[:16], nowA[:16], snapB[:16], nowB[:16])
+				} else {
+					rec("tiny neighbours (%s): restored, calls %d %d (distance %d)", variant, fa(k), fb(k), int64(pb)-int64(pa))
+				}
+			})
+		}
+		// a mocked call is over when it returns: nothing of the library is still running (and reading what the arguments
+		// point to) while the caller goes on. Counted right after calls whose arguments take long to render
+		try("goroutines left behind by mocked calls", func() {
+			big := make(map[int]string, 1500)
+			for i := 0; i < 1500; i++ {
+				big[i] = fmt.Sprint("v", i)
+			}
+			gb := mocker.Create()
+			defer gb.Reset()
+			var j I
+			gb.Func(FMapArg).Apply(func(m map[int]string, n *Node) int { return len(m) })
+			gb.Func(FMapArg2).Return(5).When(big, arg.Any()).Return(7)
+			gb.Interface(&j).Method("Put").Apply(func(ctx *mocker.IContext, n *Node, xs ...string) error { return nil })
+			many := make([]string, 4000)
+			extra, sum := 0, 0
+			for r := 0; r < 8; r++ {
+				g0 := runtime.NumGoroutine()
+				sum += FMapArg(big, &Node{Name: "n"})
+				g1 := runtime.NumGoroutine()
+				sum += FMapArg2(big, nil)
+				g2 := runtime.NumGoroutine()
+				_ = j.Put(&Node{Name: "p"}, many...)
+				g3 := runtime.NumGoroutine()
+				for _, d := range []int{g1 - g0, g2 - g1, g3 - g2} {
+					if d > 0 {
+						extra += d
+					}
+				}
+			}
+			rec("goroutines still running right after 24 mocked calls with large arguments: %d (results %d)", extra, sum)
+		})
 		// callbacks that panic with nil (in a module below go 1.21 recover() then yields nil): the call is still unwound
 		for _, pn := range []struct {
 			name string
@@ -706,6 +800,35 @@ var (
 	sinkA, sinkB, sinkC, sinkD uint64
 	sinkE, sinkF, sinkG        int32
 )
+
+//go:noinline
+func FMapArg(m map[int]string, n *Node) int { return -9 }
+
+//go:noinline
+func FMapArg2(m map[int]string, n *Node) int { return -10 }
+
+//go:noinline
+func label19() (string, int) { return "goom", 7 }
+
+var leafGlobal19 int
+
+//go:noinline
+func leafG19() int { return leafGlobal19 + 3 }
+
+// tinyNeighbours: pairs of consecutive functions of a few bytes each
+var tinyNeighbours = []func(int) int{tn0, tn1, tn2, tn3}
+
+//go:noinline
+func tn0(i int) int { return i + 1 }
+
+//go:noinline
+func tn1(i int) int { return i + 2 }
+
+//go:noinline
+func tn2(i int) int { return i + 3 }
+
+//go:noinline
+func tn3(i int) int { return i + 4 }
 
 // originTargets differ in where their 64-bit constants lie relative to the start of the function
 var originTargets = []func(int) int{ot0, ot1, ot2, ot3, ot4, ot5}
